@@ -351,6 +351,33 @@ fn is_fc_done(ev: &Value) -> bool {
     ev["type"] == "response.output_item.done" && ev["item"]["type"] == "function_call"
 }
 
+fn run_collect(events: &[Value]) -> Option<(Vec<ripd::verif::VerifCall>, Option<String>)> {
+    let evs: Vec<ParsedEvent> = events.iter().map(|v| parsed(ParsedEventKind::Event, Some(v.clone()))).collect();
+    std::panic::catch_unwind(move || ripd::verif::collect_calls(&evs)).ok()
+}
+
+fn collect_oracle(events: &[Value], calls: &[ripd::verif::VerifCall], expected: Option<&Vec<ExpCall>>) -> Vec<(String, String)> {
+    let mut bad = vec![];
+    if calls.windows(2).any(|p| p[0].0 > p[1].0) {
+        bad.push(("drained calls are not in output_index order".to_string(), "drain_not_sorted".to_string()));
+    }
+    let dones = events.iter().filter(|e| is_fc_done(e)).count();
+    if calls.len() > dones {
+        bad.push((format!("{} calls drained from {} done events", calls.len(), dones), "call_from_nothing".to_string()));
+    }
+    let mut ids = BTreeSet::new();
+    if calls.iter().any(|c| !ids.insert(c.1.clone())) {
+        bad.push(("one response: the same call id is drained (and would be executed and answered) more than once".to_string(), "call_id_completed_twice".to_string()));
+    }
+    if let Some(exp) = expected {
+        let gotc: Vec<ExpCall> = calls.iter().map(|c| ExpCall { oi: c.0, call_id: c.1.clone(), name: c.3.clone(), args: c.4.clone() }).collect();
+        if &gotc != exp {
+            bad.push((format!("clean script announced {:?} but the collector drained {:?}", exp, gotc), "collector_lost_or_reordered_call".to_string()));
+        }
+    }
+    bad
+}
+
 struct CollectCase {
     events: Vec<Value>,
     expected: Option<Vec<ExpCall>>,
@@ -612,7 +639,8 @@ fn gen_loop(r: &mut Rng, i: usize) -> LoopCase {
         let tag = format!("{k}");
         let mut mk = |r: &mut Rng, _j: usize| -> (String, String) {
             tokn += 1;
-            let name = r.pick(&EXEC_NAMES).to_string();
+            // an empty tool name makes the stateless follow-up payload schema-invalid (function_call item)
+            let name = if r.chance(1, 15) { String::new() } else { r.pick(&EXEC_NAMES).to_string() };
             let args = marker_args(r, &name, &format!("t{tokn}"));
             (name, args)
         };
@@ -875,6 +903,8 @@ struct LoopEnc {
     reason: String,
     /// per sent request: the processed calls (ran, call id if refused, name, args)
     done: Vec<Vec<(bool, String, String, String)>>,
+    /// why the validator refused the last payload (when it did)
+    refused_why: Vec<String>,
 }
 
 fn encode_loop(o: &LoopObs) -> Result<LoopEnc, String> {
@@ -954,7 +984,8 @@ fn encode_loop(o: &LoopObs) -> Result<LoopEnc, String> {
     if let Some(b) = &rejected {
         valids.push(rip_openresponses::validate_create_response_body(b).is_ok());
     }
-    Ok(LoopEnc { obs, outs, valids, reason, done: done_all })
+    let refused_why = rejected.as_ref().and_then(|b| rip_openresponses::validate_create_response_body(b).err()).unwrap_or_default();
+    Ok(LoopEnc { obs, outs, valids, reason, done: done_all, refused_why })
 }
 
 fn coq_loop_case(c: &LoopCase, e: &LoopEnc) -> String {
@@ -1096,6 +1127,42 @@ fn marker_of(args: &str) -> Option<String> {
     Some(rest[..end].to_string())
 }
 
+fn has_class(rt: &tokio::runtime::Runtime, c: &LoopCase, class: &str) -> bool {
+    let sc = Scratch::new("c16s");
+    let o = rt.block_on(drive_loop(c, sc.path()));
+    match encode_loop(&o) {
+        Ok(e) => loop_oracle(c, &o, &e).iter().any(|(_, k)| k == class),
+        Err(_) => false,
+    }
+}
+
+/// delta debugging on the rounds, then on the events of each round, while the same oracle class keeps failing
+fn shrink_loop(rt: &tokio::runtime::Runtime, c: &LoopCase, class: &str) -> LoopCase {
+    let mut best = c.clone();
+    let base = best.clone();
+    best.rounds = shrink_vec(base.rounds.clone(), |rs| {
+        let mut cc = base.clone();
+        cc.rounds = rs.to_vec();
+        has_class(rt, &cc, class)
+    });
+    if class != "not_answered_exactly_once_in_order" {
+        for k in 0..best.rounds.len() {
+            let base = best.clone();
+            let evs = shrink_vec(base.rounds[k].events.clone(), |es| {
+                let mut cc = base.clone();
+                cc.rounds[k].events = es.to_vec();
+                cc.rounds[k].expected = None; // the announced-call list no longer describes the round
+                has_class(rt, &cc, class)
+            });
+            if evs.len() < best.rounds[k].events.len() {
+                best.rounds[k].events = evs;
+                best.rounds[k].expected = None;
+            }
+        }
+    }
+    best
+}
+
 fn loop_nontrivial(c: &LoopCase, e: &LoopEnc) -> bool {
     e.done.iter().map(|d| d.len()).sum::<usize>() > 0 || c.rounds.iter().any(|r| !r.events.is_empty())
 }
@@ -1201,7 +1268,7 @@ fn main() {
     if let Some(p) = &a.replay {
         let txt = std::fs::read_to_string(p).expect("replay file");
         let v: Value = serde_json::from_str(&txt).expect("replay json");
-        let v = v.get("replay").cloned().unwrap_or(v);
+        let v = v.get("replay").or_else(|| v.get("case")).cloned().unwrap_or(v);
         if let Ok(c) = serde_json::from_value::<LoopCase>(v.get("loop").cloned().unwrap_or(v.clone())) {
             let sc = Scratch::new("c16");
             let o = rt.block_on(drive_loop(&c, sc.path()));
@@ -1224,11 +1291,32 @@ fn main() {
             res.write(&a.out);
             return;
         }
-        eprintln!("replay file is not a loop case");
+        if let Some(evs) = v.get("collect").and_then(|e| e.as_array()) {
+            match run_collect(evs) {
+                Some((calls, resp)) => {
+                    println!("drained: {calls:?}\nresponse id: {resp:?}");
+                    for (what, class) in collect_oracle(evs, &calls, None) {
+                        println!("ORACLE [{class}] {what}");
+                        res.oracle_violations.push(OracleViolation { case_id: 0, what, class, replay: json!({"collect": evs}) });
+                    }
+                    let mut obs = vec![];
+                    enc_calls(&mut obs, &calls, resp.as_deref());
+                    w.push(format!("CCollect {} {}", coq_list(evs, coq_json), coq_list_n(&obs)));
+                }
+                None => println!("the collector panicked"),
+            }
+            w.flush();
+            res.case_files = w.files.iter().map(|p| p.display().to_string()).collect();
+            res.evaluations = 1;
+            res.write(&a.out);
+            return;
+        }
+        eprintln!("replay file is neither a loop case nor a collector case");
         std::process::exit(2);
     }
 
     // ---- (a) collector
+    let mut shrunk_collect: BTreeSet<String> = BTreeSet::new();
     for i in 0..n_collect {
         let c = gen_collect(&mut r, i);
         let mut evs: Vec<ParsedEvent> = c.events.iter().map(|v| parsed(ParsedEventKind::Event, Some(v.clone()))).collect();
@@ -1253,24 +1341,18 @@ fn main() {
             }
         };
         res.bump(&format!("collect-calls={}", match calls.len() { 0 => "0", 1 => "1", 2..=3 => "2-3", _ => "4+" }));
-        // oracle: sorted by output index; no more calls than done events; clean scripts: exactly the announced calls
+        // oracle: sorted by output index; no more calls than done events; distinct ids; clean scripts: exactly the announced calls
         res.oracle_checks += 1;
-        if calls.windows(2).any(|p| p[0].0 > p[1].0) {
-            res.oracle_violations.push(OracleViolation { case_id: i as i64, what: "drained calls are not in output_index order".into(), class: "drain_not_sorted".into(), replay: cj.clone() });
-        }
-        let dones = c.events.iter().filter(|e| is_fc_done(e)).count();
-        if calls.len() > dones {
-            res.oracle_violations.push(OracleViolation { case_id: i as i64, what: format!("{} calls drained from {} done events", calls.len(), dones), class: "call_from_nothing".into(), replay: cj.clone() });
-        }
-        let mut ids = BTreeSet::new();
-        if calls.iter().any(|c| !ids.insert(c.1.clone())) {
-            res.oracle_violations.push(OracleViolation { case_id: i as i64, what: "one response: the same call id is drained (and would be executed and answered) more than once".into(), class: "call_id_completed_twice".into(), replay: cj.clone() });
-        }
-        if let Some(exp) = &c.expected {
-            let gotc: Vec<ExpCall> = calls.iter().map(|c| ExpCall { oi: c.0, call_id: c.1.clone(), name: c.3.clone(), args: c.4.clone() }).collect();
-            if &gotc != exp {
-                res.oracle_violations.push(OracleViolation { case_id: i as i64, what: format!("clean script announced {:?} but the collector drained {:?}", exp, gotc), class: "collector_lost_or_reordered_call".into(), replay: cj.clone() });
-            }
+        for (what, class) in collect_oracle(&c.events, &calls, c.expected.as_ref()) {
+            // classes that do not depend on the generator's own call list are reported shrunk
+            let replay = if class != "collector_lost_or_reordered_call" && shrunk_collect.insert(class.clone()) {
+                let cls = class.clone();
+                let evs = shrink_vec(c.events.clone(), |es| run_collect(es).map(|(calls, _)| collect_oracle(es, &calls, None).iter().any(|(_, k)| *k == cls)).unwrap_or(false));
+                json!({"collect": evs, "shrunk_from_case": i})
+            } else {
+                cj.clone()
+            };
+            res.oracle_violations.push(OracleViolation { case_id: i as i64, what, class, replay });
         }
         if !a.oracle_only() {
             let mut obs = vec![];
@@ -1369,6 +1451,7 @@ fn main() {
         });
         results.extend(outs);
     }
+    let mut shrunk_classes: BTreeSet<String> = BTreeSet::new();
     for (i, (c, o)) in results.iter().enumerate() {
         let case_id = (20_000 + i) as i64;
         let cj = json!({"loop": c});
@@ -1388,6 +1471,9 @@ fn main() {
         res.bump(&format!("loop-reason={}", e.reason));
         if e.reason == "invalid_request" {
             res.bump(&format!("loop-refused-at-request={}", o.bodies.len().min(3)));
+            if !o.bodies.is_empty() && res.notes.len() < 4 {
+                res.notes.push(format!("follow-up payload refused by the validator (case {case_id}): {}", e.refused_why.first().cloned().unwrap_or_default().chars().take(300).collect::<String>()));
+            }
         }
         if c.thread {
             res.bump("loop-thread-run");
@@ -1398,7 +1484,13 @@ fn main() {
         res.bump_by("loop-tool-refused", e.done.iter().map(|d| d.iter().filter(|x| !x.0).count() as u64).sum());
         res.oracle_checks += 1;
         for (what, class) in loop_oracle(c, o, &e) {
-            res.oracle_violations.push(OracleViolation { case_id, what, class, replay: cj.clone() });
+            // the first failing case of a class is reported shrunk
+            let replay = if shrunk_classes.insert(class.clone()) && shrunk_classes.len() <= 4 {
+                json!({"loop": shrink_loop(&rt, c, &class), "shrunk_from_case": case_id})
+            } else {
+                cj.clone()
+            };
+            res.oracle_violations.push(OracleViolation { case_id, what, class, replay });
         }
         if !a.oracle_only() {
             let id = w.push(coq_loop_case(c, &e));
